@@ -18,7 +18,7 @@ def check(F, rep):
     rep.clause("the address filter is applied once, before the fan-out, and the filtered value is what is stored")
     rep.undecided("what each service does with the data it was handed")
     from ..inline import inlined
-    ab = get_fn(F, rep, S + "::add_boxed")
+    ab = inlined(F, get_fn(F, rep, S + "::add_boxed"))      # e.g. priming the new service moved into a private helper
     pb0 = get_fn(F, rep, S + "::publish")
     pb = inlined(F, pb0)        # e.g. the filter step moved into a private helper
     # ---- add_boxed
